@@ -115,7 +115,10 @@ def run_parse(X, src, mode="exec", wall=5.0, **kw):
 
 
 def dump(tree):
-    return ast.dump(tree, include_attributes=True)
+    try:
+        return ast.dump(tree, include_attributes=True)
+    except Exception as e:  # noqa: BLE001   a malformed tree (e.g. None where a list is required) cannot even be dumped
+        return f"<undumpable tree: {type(e).__name__}: {e}>"
 
 
 def exc_sig(e):
@@ -336,7 +339,7 @@ def _expected_ctx(tree):
             return
         if isinstance(n, (ast.Tuple, ast.List)):
             exp[id(n)] = ctx
-            for e in n.elts:
+            for e in (n.elts if isinstance(n.elts, list) else ()):
                 mark(e, ctx)
         elif isinstance(n, ast.Starred):
             exp[id(n)] = ctx
